@@ -1591,6 +1591,18 @@ dt_dtadd(struct dt_dt_s d, struct dt_dtdur_s dur)
 		default:
 			break;
 		}
+#if defined WITH_LEAP_SECONDS
+		if (UNLIKELY(dur.tai)) {
+			/* real seconds need the leap second table, and that
+			 * is looked at on the way through a ymd/hms sandwich */
+			struct dt_dt_s tmp = dt_dtconv((dt_dttyp_t)DT_YMD, d);
+
+			tmp = dt_dtadd(tmp, dur);
+			tmp = dt_dtconv((dt_dttyp_t)DT_SEXY, tmp);
+			d.sexy = tmp.sexy;
+			return d;
+		}
+#endif	/* WITH_LEAP_SECONDS */
 		d.sexy = __sexy_add(d.sexy, dur);
 		return d;
 	}
